@@ -150,7 +150,7 @@ class Dest:
 def new_game(rng):
     regions, _ = carts.random_regions(rng, 'uniform')
     version = rng.choice((8, 8, 33, 34, 36, 41, 16, 255))
-    return carts.make_game(regions, code=carts.simple_lua(rng, 300), version=version, label=carts.random_bytes(rng, 8192))
+    return carts.make_game(regions, code=carts.varied_lua(rng, 300), version=version, label=carts.random_bytes(rng, 8192))
 
 
 def fmt_class(fmt):
@@ -587,7 +587,7 @@ def run_faultfree(ctx, rng, spec, root, only=None):
                             ext = '.p8' if fmt == 'p8' else '.p8.png'
                             base = carts.cart_basename(n)
                             code = {'no_lua_section': b'', 'empty_lua_section': b'', 'one_newline': b'\n', 'comment_only': b'-- nothing here\n',
-                                    'ordinary': carts.simple_lua(rng, 200)}[code_kind]
+                                    'ordinary': carts.varied_lua(rng, 200)}[code_kind]
                             regions, _ = carts.random_regions(rng, 'sparse')
                             if fmt == 'p8':
                                 data = rc.write_p8(regions, code, version=rng.choice((8, 33, 41)), final_newline=False,
